@@ -10,7 +10,7 @@
    byte-exact generator correspondence and judged on the reference machine. *)
 From Coq Require Import ZArith List String Bool.
 From Gigue Require Import Types Bits Isa Enc GenTables Builder BuilderTies Samplers Generator Machine MachineLemmas
-  SplitProofs FragProofs GenLemmas ImageSem CtorSpec C12Defs C12Proofs GenWF GenWFProps SliceLemmas FloatSign GenWF2 GenWF3 GenWF4 GenWF2Props Witness.
+  SplitProofs FragProofs GenLemmas ImageSem CtorSpec C12Defs C12Proofs GenWF GenWFProps SliceLemmas FloatSign GenWF2 GenWF3 GenWF4 GenWF2Props BodyExec BodyBridge GenWF5 FrameExec CodeMem SwitchExec GenWF6 GenWF8 Witness.
 Import ListNotations.
 Open Scope Z_scope.
 
@@ -71,6 +71,30 @@ Theorem C04_call_sites : forall c script img,
   successful c script img -> Forall (sites_ok c (im_methods img)) (im_methods img).
 Proof. exact call_sites_exact. Qed.
 
+(* PROVED (Layer B, call edges; GenWF8 / CodeMem): non-FIXER variants, every
+   image: every call site (slot i of method m, callee cal) executed by the
+   reference machine from the EMITTED WORDS in place - pc at the slot - reaches in
+   exactly two steps the RECORDED ADDRESS of the callee (the first instruction of
+   a method), with ra = slot address + 8 and memory, dom, CFI and every other
+   register unchanged; for every distance the auipc pair can express. *)
+Theorem C04_call_sites_run : forall c script img,
+  successful c script img -> non_fixer (c_variant c) ->
+  Forall (fun m => forall i cal, site_ok c (im_methods img) m i cal ->
+    exists cm, nth_error (im_methods img) cal = Some cm /\
+      forall L s,
+        let A := m_addr m + i * 4 in
+        regions_ok L -> 0 <= i ->
+        code_at (mem s) (m_addr m) (map generate (m_instrs m)) ->
+        pc s = A -> A mod 4 = 0 -> code_lo L <= A -> A + 8 <= code_hi L ->
+        (halt_at L < A \/ A + 8 <= halt_at L) ->
+        side_ok (gv c) L A 2 (dom s) ->
+        in_pair_range (m_addr cm - A) -> m_addr cm mod 2 = 0 -> 0 <= m_addr cm < W64 -> A + 8 < W64 -> 0 <= A ->
+        exists s', run (gv c) L 2 s = (Next s', 2%nat) /\
+          pc s' = m_addr cm /\ rget s' 1 = A + 8 /\ mem s' = mem s /\ dom s' = dom s /\ cfi s' = cfi s /\
+          (forall r, 0 <= r -> r <> 1 -> rget s' r = rget s r))
+    (im_methods img).
+Proof. exact call_sites_run. Qed.
+
 Theorem C04_nonvacuous : exists img, successful wcfg_fixer wscript_fixer img.
 Proof. exact witness_fixer. Qed.
 
@@ -127,6 +151,7 @@ Print Assumptions C04_exact_tiling.
 Print Assumptions C04_element_addresses.
 Print Assumptions C04_interpreter_padding.
 Print Assumptions C04_call_sites.
+Print Assumptions C04_call_sites_run.
 Print Assumptions C04_nonvacuous.
 Print Assumptions C04_fragment_sizes_partial.
 Print Assumptions C04_slots_disjoint_partial.
